@@ -41,9 +41,18 @@ def _check_name(name):
     return name
 
 
+def _check_length(name):
+    """The GLPK interface refuses names of more than 256 characters - in a constructor before anything exists, in the
+    name setter *after* the new name was stored on the Python side (the object is then known under the new name while
+    the renaming is reported as refused)."""
+    if isinstance(name, str) and len(name) > 256:
+        raise ValueError("GLPK does not support ID's longer than 256 characters")
+    return name
+
+
 class OVar(_Var, _S):
     def __init__(self, name, lb=None, ub=None, type="continuous", problem=None, **kw):
-        _Var.__init__(self, _check_name(name), lb, ub, type)
+        _Var.__init__(self, _check_length(_check_name(name)), lb, ub, type)
         self.problem = None
 
     @property
@@ -53,6 +62,7 @@ class OVar(_Var, _S):
     @name.setter
     def name(self, value):
         self.__dict__["_name"] = _check_name(value)
+        _check_length(value)
 
     def set_bounds(self, lb, ub):
         if lb is not None and ub is not None and lb > ub:
@@ -993,6 +1003,7 @@ REFUSED: Dict[str, Tuple[str, Callable]] = {
     "unknown reaction id": ("model.remove_reactions(['nope'])", lambda w, m, h: m.remove_reactions(["nope"])),
     "metabolite renamed to a name the solver refuses": ("b_c.id = 'b c'", lambda w, m, h: _set(h["mets"]["b_c"], "id", "b c")),
     "reaction renamed to a name the solver refuses": ("R1.id = 'R 1'", lambda w, m, h: _set(h["R1"], "id", "R 1")),
+    "reaction renamed to a name whose reverse variable the solver refuses": ("R1.id = 'X' * 250  # the name of the reverse variable is longer than the solver accepts", lambda w, m, h: _set(h["R1"], "id", "X" * 250)),
     "metabolite renamed to a taken name": ("b_c.id = 'a_c'", lambda w, m, h: _set(h["mets"]["b_c"], "id", "a_c")),
     "foreign objective reaction": ("model.objective = {a reaction of no model: 1}", lambda w, m, h: _set(m, "objective", {w.new("Reaction", "FOREIGN"): 1.0})),
 }
@@ -1070,7 +1081,7 @@ def _scenario(prog, report: ReplayReport, label: str, steps: List[Tuple[str, Cal
     d = diff(before, snapshot(m, skip))
     if d:
         report.restore.append(f"{label}: after the block {d[0]}" + (f" (+{len(d) - 1} more differences)" if len(d) > 1 else ""))
-    x02, x01 = split_invariants(m)
+    x02, x01 = split_invariants(m, USER_VARS, USER_CONS) if getattr(prepare, "_adds_user", False) else split_invariants(m)
     for f in x02[:1]:
         report.c02.append(f"after the block ({label}): {f}")
     for f in x01[:1]:
@@ -1137,6 +1148,16 @@ def run_replay(prog) -> ReplayReport:
         _scenario(prog, rep, f"`{OPS[name][0]}` inside `with model:` on a model that minimises", [OPS[name]], prepare=to_min)
     _scenario(prog, rep, f"`{OPS['objective reaction'][0]}` then `{OPS['objective dict'][0]}` on a model that minimises", [OPS["objective reaction"], OPS["objective dict"]], prepare=to_min)
     _scenario(prog, rep, f"`{OPS['objective reaction'][0]}`, then in an inner block `{OPS['objective coefficient'][0]}`, on a model that minimises", [OPS["objective reaction"], OPS["objective coefficient"]], nest_at=1, prepare=to_min)
+    # a constraint of the user's own over the fluxes of R1 (added before the block): taking R1 out of the model inside the
+    # block and getting it back on exit gives the constraint its terms back
+    def user_constraint(w, m, h):
+        v = OVar("extra_v", lb=0, ub=3)
+        c = OCons(v * 2.0 + h["R1"].forward_variable * 1.0 - h["R1"].reverse_variable * 1.0, lb=0, ub=9, name="extra_c")
+        m.add_cons_vars([v, c])
+
+    user_constraint._adds_user = True  # type: ignore[attr-defined]
+    for name in ("remove_reactions", "remove_from_model", "knock_out", "remove with orphans", "remove_metabolites destructive", "reverse"):
+        _scenario(prog, rep, f"`{OPS[name][0]}` inside `with model:` on a model with a user constraint over the flux of R1", [OPS[name]], prepare=user_constraint)
     for first in ("bounds", "remove_reactions", "objective reaction", "add_reactions"):
         for name, (what, op) in RAISING.items():
             _scenario(prog, rep, f"`{OPS[first][0]}` then `{what}`, which raises", [OPS[first], (what, op)])
